@@ -1,7 +1,7 @@
 from propcfg.common import *
 
 CFG = {
-    "disabled": True,
+    "disabled": False,
     "props": "Props/C17.v",
     "corr": ["Corr/HashCorr.v", "Corr/CodecCorr.v"],
     "engines": [("hash", []), ("infojson", [])],
